@@ -174,6 +174,20 @@ func newWorld(cfg config) *world {
 	return wd
 }
 
+// peekAll: the values every (observable) facade holds for key id k; Peek does not reorder an LRU.
+func (wd *world) peekAll(k int) []int {
+	out := []int{}
+	if k < 1 || k > len(wd.keys) {
+		return out
+	}
+	for _, f := range wd.facs {
+		if v, ok := f.Peek(wd.keys[k-1]); ok {
+			out = append(out, toInt(v))
+		}
+	}
+	return out
+}
+
 func has(s []int, n int) bool {
 	for _, x := range s {
 		if x == n {
@@ -185,10 +199,11 @@ func has(s []int, n int) bool {
 
 // call is one store callback: logged on entry, optionally gated, applied atomically.
 func (wd *world) call(o *opctx, fn string, k, d, pre int) (int, error) {
+	cached := wd.peekAll(o.k) // what the group's cache holds for the operation's key right now
 	wd.mu.Lock()
 	o.n++
 	n := o.n
-	wd.evs = append(wd.evs, tr.E{"ev": "scb", "id": o.id, "k": k, "fn": fn})
+	wd.evs = append(wd.evs, tr.E{"ev": "scb", "id": o.id, "k": k, "fn": fn, "cached": cached})
 	var ch chan struct{}
 	if has(o.g, n) {
 		ch = make(chan struct{})
